@@ -51,16 +51,23 @@ def _mentions(expr, x) -> bool:
 
 
 def _mentions_outside_id(expr, x) -> bool:
+  """`expr` holds `x` unconditionally: it is `x`, or a tuple / list / dict
+
+  literal (possibly nested) with `x` as an element.  A conditional expression
+  or a call involving `x` does not count: the entry may not hold the object.
+  """
   if expr is None:
     return False
   tx = unparse(x)
 
   def rec(n):
-    if _is_id_call(n) is not None:
-      return False
     if isinstance(n, (ast.Name, ast.Attribute)) and unparse(n) == tx:
       return True
-    return any(rec(c) for c in ast.iter_child_nodes(n))
+    if isinstance(n, (ast.Tuple, ast.List, ast.Set)):
+      return any(rec(c) for c in n.elts)
+    if isinstance(n, ast.Dict):
+      return any(rec(c) for c in n.values if c is not None)
+    return False
 
   return rec(expr)
 
